@@ -386,6 +386,9 @@ def copy_pairs():
         (("ForAll", ("list", "x"), ("LT", "x", "y")), ("Exists", ("list", "y"), ("LE", "y", "x"))),
         (("Equals", "e1", "e2"), ("Not", ("Equals", "e2", "e1"))),
         (("Equals", ("StrLength", "st"), "x"), ("LT", "x", ("StrLength", ("StrConcat", "st", "st")))),
+        # same number of constructions, same root id, different size / atoms / symbols
+        (("And", "a", ("Or", "b", ("Not", "c"))), ("Or", ("Not", "a"), ("Not", "b"))),
+        (("LT", ("Plus", "x", ("Times", "y", ("Int", P(2)))), "x"), ("Equals", ("BVAdd", "u", "v"), ("BVNot", ("BVNeg", "u")))),
     ]
 
 
@@ -479,5 +482,60 @@ def sc_str(w, n):
 def copy_results():
     out = []
     for r in parallel_map(_copy_job, list(range(len(copy_pairs())))):
+        out.extend(r)
+    return out
+
+
+# ------------------------------------------------------------------------------------------------ M6
+ORACLES = {"pysmt.oracles.SizeOracle": "get_size", "pysmt.oracles.QuantifierOracle": "is_qf",
+           "pysmt.oracles.TheoryOracle": "get_theory", "pysmt.oracles.FreeVarsOracle": "get_free_variables",
+           "pysmt.oracles.AtomsOracle": "get_atoms", "pysmt.oracles.TypesOracle": "get_types",
+           "pysmt.type_checker.SimpleTypeChecker": "get_type"}
+
+
+def _alias_job(job):
+    """An analysis asked about formulas of two environments whose node ids coincide answers each as a fresh
+    analysis does (answers are cached per formula, not per node id)."""
+    cls, pi = job
+    t1, t2 = copy_pairs()[pi]
+    tag = "%s: %s then %s" % (cls.split(".")[-1], _show(t1), _show(t2))
+
+    def one(ex):
+        from .c14_deep import ac_sig
+        it = Interp(ex, max_steps=3000000)
+        w = RealMgrWorld().attach(it)
+        srcs = [w.new_environment(), w.new_environment()]
+        built = []
+        for (env, mgr), t in zip(srcs, (t1, t2)):
+            with w.using(env, mgr):
+                syms = dict((n, w.symbol(n, s)) for n, s in sorted(COPY_SYMS.items()))
+                built.append(_build(w, syms, t))
+        f1, f2 = built
+        meth = ORACLES[cls]
+
+        def ask(o, f):
+            try:
+                return ("ret", ac_sig(w, it.call(it.getattr(o, meth), [f])))
+            except AbsRaise as ex_:
+                return ("raise", ex_.cls_name)
+        shared = w.new_walker(cls, srcs[0][0])
+        a1 = ask(shared, f1)
+        a2 = ask(shared, f2)
+        fresh = ask(w.new_walker(cls, srcs[0][0]), f2)
+        if a2 != fresh:
+            return ("bad", "alias|%s" % tag, "asked about %s after %s (a formula of another environment with the same node ids) it "
+                    "answers %s; a fresh analysis answers %s" % (_show(t2), _show(t1), str(a2)[:120], str(fresh)[:120]))
+        return ("ok", tag, "as a fresh analysis")
+    try:
+        paths = Explorer(max_paths=4).run(one)
+    except Unsupported as e:
+        return [("unsupported", tag, str(e))]
+    return [p.value if p.kind == "return" else ("unsupported", tag, "%s %s" % (p.kind, str(p.value)[:200])) for p in paths]
+
+
+def alias_results():
+    out = []
+    jobs = [(c, i) for c in sorted(ORACLES) for i in (0, 1, 4, 7, 8)]
+    for r in parallel_map(_alias_job, jobs):
         out.extend(r)
     return out
